@@ -310,7 +310,7 @@ const MAX_INCLUDE_DEPTH: usize = 64;
 /// operator costs a piece of the stack, so limit how deep a line may nest.
 /// Chain of binary operators gives expression which is as deep as the chain is long,
 /// so operators of one operand are counted too
-const MAX_NESTING: usize = 256;
+const MAX_NESTING: usize = 128;
 
 fn nesting_depth(line: &str) -> usize {
     let mut depth = 0usize;
